@@ -8,6 +8,7 @@ import (
 	"os"
 	"sort"
 	"strings"
+	"time"
 
 	corev1 "k8s.io/api/core/v1"
 	metav1 "k8s.io/apimachinery/pkg/apis/meta/v1"
@@ -15,6 +16,7 @@ import (
 	ctrl "sigs.k8s.io/controller-runtime"
 	"sigs.k8s.io/controller-runtime/pkg/client"
 	"sigs.k8s.io/controller-runtime/pkg/client/fake"
+	"sigs.k8s.io/controller-runtime/pkg/client/interceptor"
 
 	configv1 "github.com/istio-ecosystem/authservice/config/gen/go/v1"
 	oidcv1 "github.com/istio-ecosystem/authservice/config/gen/go/v1/oidc"
@@ -41,6 +43,7 @@ type c19Sys struct {
 	initial []string
 	// the long-lived service objects (ExtAuthZFilter, TLS pool, key source, store factory) over the same configuration
 	// object, assembled when the first request arrives
+	later   map[string]bool // objects whose deletion timestamp reads as one hour ahead
 	sw      *world.SWorld
 	fspecs  []world.FilterSpec
 	checked []bool // filters that have served a request (a cached handler would date from then)
@@ -118,7 +121,20 @@ func newC19Sys(spec c19Spec) (*c19Sys, error) {
 		s.cfg.Chains = append(s.cfg.Chains, &configv1.FilterChain{Name: fmt.Sprintf("c%d", i),
 			Filters: []*configv1.Filter{{Type: &configv1.Filter_Oidc{Oidc: f}}}})
 	}
-	s.kube = fake.NewClientBuilder().Build()
+	// reads of an object marked in s.later see its deletion timestamp an hour ahead (graceful deletion / clock skew;
+	// the fake API server itself only ever stamps "now")
+	s.later = map[string]bool{}
+	s.kube = fake.NewClientBuilder().WithInterceptorFuncs(interceptor.Funcs{
+		Get: func(ctx context.Context, c client.WithWatch, key client.ObjectKey, obj client.Object, opts ...client.GetOption) error {
+			if err := c.Get(ctx, key, obj, opts...); err != nil {
+				return err
+			}
+			if s.later[key.Namespace+"/"+key.Name] && !obj.GetDeletionTimestamp().IsZero() {
+				when := metav1.NewTime(time.Now().Add(time.Hour))
+				obj.SetDeletionTimestamp(&when)
+			}
+			return nil
+		}}).Build()
 	ctl, err := k8s.VerifNewController(s.cfg, "default", s.kube)
 	if err != nil {
 		return nil, err
@@ -165,6 +181,9 @@ func (s *c19Sys) objState(ns, name string) string {
 	}
 	if !sec.DeletionTimestamp.IsZero() {
 		st += ",deleting"
+		if sec.DeletionTimestamp.After(time.Now()) {
+			st += "-later"
+		}
 	}
 	return st
 }
@@ -177,6 +196,8 @@ func c19Model(run *ev.Run, spec c19Spec) seqx.Model {
 		}
 		evs = append(evs, seqx.Event{Kind: "mark-deleting", Who: o[0], Arg: o[1]}, seqx.Event{Kind: "delete", Who: o[0], Arg: o[1]},
 			seqx.Event{Kind: "reconcile", Who: o[0], Arg: o[1]})
+		// the object in deleting state with a deletion timestamp an hour ahead (graceful deletion, clock skew) and new data
+		evs = append(evs, seqx.Event{Kind: "put-deleting-later", Who: o[0], Arg: o[1], Arg2: "z"})
 	}
 	// a request served by filter i (no cookie: a login redirect) - whatever the service keeps per filter dates from here
 	for i := range spec.Sources {
@@ -215,11 +236,28 @@ func c19Model(run *ev.Run, spec c19Spec) seqx.Model {
 				} else {
 					_ = s.kube.Create(ctx, &corev1.Secret{ObjectMeta: metav1.ObjectMeta{Namespace: ns, Name: name, Finalizers: []string{"verif/hold"}}, Data: data})
 				}
+			case "put-deleting-later":
+				// new data, then deletion with a grace period: the object is there, deleting, its timestamp in the future
+				data := map[string][]byte{"client-secret": []byte(e.Arg2 + "-" + name)}
+				if cur := s.get(ns, name); cur != nil {
+					if !cur.DeletionTimestamp.IsZero() {
+						break // already deleting: its data can no longer change
+					}
+					cur.Data = data
+					_ = s.kube.Update(ctx, cur)
+				} else {
+					_ = s.kube.Create(ctx, &corev1.Secret{ObjectMeta: metav1.ObjectMeta{Namespace: ns, Name: name, Finalizers: []string{"verif/hold"}}, Data: data})
+				}
+				if cur := s.get(ns, name); cur != nil {
+					_ = s.kube.Delete(ctx, cur)
+					s.later[ns+"/"+name] = true
+				}
 			case "mark-deleting":
 				if cur := s.get(ns, name); cur != nil {
 					_ = s.kube.Delete(ctx, cur) // finalizer present: only the deletion timestamp is set
 				}
 			case "delete":
+				delete(s.later, ns+"/"+name)
 				if cur := s.get(ns, name); cur != nil {
 					cur.Finalizers = nil
 					_ = s.kube.Update(ctx, cur)
